@@ -58,6 +58,7 @@ CATALOG = {
     "rlP":   rl("rlP", 1, per=3),                        # one permit per period of 3 units: refusals and admissions across period boundaries
     "bh1":   bh("bh1", 1),
     "bh2p":  bh("bh2p", 2, pre=1),
+    "bh0":   bh("bh0", 0),                               # no concurrency allowed at all: every execution is refused
     "fbR":   fb(),
     "fbE":   fb(fr="R0", fe="EFB"),
     "fbH":   fb(h=[cE("E1")]),
@@ -86,7 +87,7 @@ CATALOG = {
 
 OUTS4 = [out("R0"), out("R1"), out("R0", "E1"), out("R0", "E2")]
 OUTS3 = [out("R1"), out("R0", "E1"), out("R0", "E2")]
-OUTS_TY = [out("R1"), out("R0", "E1"), out("R0", "TV"), out("R0", "TP")]     # typed errors next to a sentinel
+OUTS_TY = [out("R1"), out("R0", "E1"), out("R0", "TV"), out("R0", "TP"), out("R1", "E1")]     # typed errors next to a sentinel; a handled result WITH an unhandled error
 OKOUT = out("R2")
 
 
